@@ -509,6 +509,17 @@ pub fn run_play(cfg: &WalkCfg, case: &PlayCase, st: &mut Stats) -> Result<(), St
     };
     let mut pos = apply_clocks(root, case);
     let mut b = to_board(&pos)?;
+    if cfg.mode == Mode::C02 && pos.castle.iter().all(|x| !*x) && (case.aux >> 8) % 4 == 0 {
+        // "clock values below the 16-bit limit": the parser reads at most four digits, so boards
+        // with larger full-move numbers come from the builder (possible when no right is held)
+        let mut big = pos.clone();
+        big.full = 10_000 + ((case.aux >> 16) % 55_000) as u32;
+        if let Some(Ok(bb2)) = build_with_builder(&big) {
+            pos = big;
+            b = bb2;
+            st.class("root with a five-digit full-move number (builder)");
+        }
+    }
     let mut aux = Expand(case.aux);
     let mut last: Option<(Pos, Mv)> = None;
     let mut node = case.aux % 64; // phase of the periodic deep checks varies by case
